@@ -64,7 +64,7 @@ impl RCase {
 /// a second symbol of the same version with other modules (rendered first on a builder that is then reused)
 fn symbol_other(v: usize) -> Option<Box<QRCode>> {
     let input = content(Family::Lo, 2, crate::refmodel::cap(v, 1, 2) / 2);
-    match subject::build(&input, &Opts { mode: Some(2), ecl: Some(1), version: Some(v as u8), mask: None }) {
+    match subject::build(&input, &Opts { mode: Some(2), ecl: Some(1), version: Some(v as u8), mask: None, order: 0 }) {
         Outcome::Ok(q) => Some(q),
         _ => None,
     }
@@ -72,7 +72,7 @@ fn symbol_other(v: usize) -> Option<Box<QRCode>> {
 
 fn symbol(v: usize) -> Option<Box<QRCode>> {
     let input = content(Family::Ctr, 2, crate::refmodel::cap(v, 1, 2));
-    match subject::build(&input, &Opts { mode: Some(2), ecl: Some(1), version: Some(v as u8), mask: None }) {
+    match subject::build(&input, &Opts { mode: Some(2), ecl: Some(1), version: Some(v as u8), mask: None, order: 0 }) {
         Outcome::Ok(q) => Some(q),
         _ => None,
     }
